@@ -174,7 +174,11 @@ def make_class(ncleanups):
         def setUp(self):
             super().setUp()
             for i in range(ncleanups):
-                self.addCleanup(_cleanup, self, "c%d" % (i + 1))
+                if i == 0:
+                    # (keyword arguments are the cleanup's business, whatever they are called)
+                    self.addCleanup(_cleanup, self, "c%d" % (i + 1), f=1, function=2)
+                else:
+                    self.addCleanup(_cleanup, self, "c%d" % (i + 1))
             return behave(self, self._ctx, "setUp")
 
         def test_it(self):
@@ -191,7 +195,7 @@ def make_class(ncleanups):
     return AProg
 
 
-def _cleanup(case, name):
+def _cleanup(case, name, f=None, function=None):
     return behave(case, case._ctx, name)
 
 
